@@ -103,6 +103,9 @@ pub open spec fn a_touches(p: EvictionPolicy, limit: Option<usize>, max_memory: 
 ''')
 
 
+SPEC_MIN = dict(kind='raw', label='async_spec_min', text='')
+
+
 def fn(name, impl=IMPL, **kw):
     d = dict(kind='fn', file=A, impl=impl, name=name, label='AsyncGlobalCache::' + name, engine='AsyncGlobalCache',
              impl_rules=LIFETIME + [R('R0.crate_path', r'\bcrate :: MemoryEstimator\b', 'MemoryEstimator', 'crate:: path prefix')])
@@ -173,7 +176,7 @@ INSERT_ENS = [
     ('post_wf', ['C04', 'C13'], 'wf(%s, final(self).order@)' % M1),
     ('stats_frame', ['C15'], 'final(self).stats == old(self).stats'),
     ('last_store_wins', ['C01', 'C11', 'C03'], '%s.contains_key(%s) && %s[%s] == %s' % (M1, K, M1, K, NEW)),
-    ('fits_exact', ['C04', 'C03'], '(old(self).limit is None || %s.len() < old(self).limit->Some_0) ==> '
+    ('fits_exact', ['C04', 'C03', 'C20'], '(old(self).limit is None || %s.len() < old(self).limit->Some_0) ==> '
      '%s == %s.insert(%s, %s) && final(self).order@ == touch(old(self).order@, %s)' % (MA, M1, M0, K, NEW, K)),
     ('overflow_one_victim', ['C04', 'C07', 'C08'], '(old(self).limit is Some && %s.len() >= old(self).limit->Some_0) ==> '
      'exists|v: String| async_victim_ok(old(self).policy, %s, %s, v, old(self).ttl, old(self).frequency_weight) && %s == (#[trigger] %s.remove(v)).insert(%s, %s) && final(self).order@ == rm1(%s, v).push(%s)'
